@@ -132,6 +132,17 @@ func opGroupAndMeta(r *rand.Rand, scenarios int) {
 				}
 			}
 		}
+		if r.Intn(2) == 0 { // one topic whose committed partitions mostly fail: several per-partition errors in one answer
+			n := known[r.Intn(len(known))]
+			for p := range c.Committed[group][n] {
+				if r.Intn(3) != 0 {
+					if c.CommitErr[n] == nil {
+						c.CommitErr[n] = map[int32]int16{}
+					}
+					c.CommitErr[n][p] = int16([]int{9, 14, 28}[r.Intn(3)])
+				}
+			}
+		}
 		tr := &kafka.Transport{Dial: c.Dial, MetadataTTL: 5 * time.Second}
 		cl := &kafka.Client{Addr: kafka.TCP(c.Brokers[boot].Addr()), Transport: tr, Timeout: 5 * time.Second}
 		encState := func() string {
